@@ -8,6 +8,7 @@ CONSTANTS
   TightCap = TRUE
   CopyArgs = TRUE
   HtmlDep = FALSE
+  LazyInit = FALSE
 INVARIANT Conforms
 POSTCONDITION AcceptedLinear
 CHECK_DEADLOCK FALSE
